@@ -56,7 +56,8 @@ def build_network(rng, tier):
     n = rng.randint(2, 14 if tier == 'quick' else 40)
     names = []
     for i in range(n):
-        nm = rng.choice(['J%d', '%d', 'n%d']) % (i + 1)
+        # any legal name, also ones that contain the prefixes the implementation uses internally ('N_', 'L_')
+        nm = rng.choice(['J%d', '%d', 'n%d', 'J%d', '%d', 'N_%d', 'TOWN_%d', 'N_N_%d', 'L_%d', 'x.%d-N_']) % (i + 1)
         if nm in names:
             nm = 'J%d' % (i + 1)
         wn.add_junction(nm, base_demand=0.0, elevation=0.0, coordinates=(float(i), float(i % 3)))
@@ -66,7 +67,7 @@ def build_network(rng, tier):
     links = []
 
     def add(a, b):
-        ln = rng.choice(['P%d', '%d', 'L%d']) % (len(links) + 1)
+        ln = rng.choice(['P%d', '%d', 'L%d', 'P%d', '%d', 'L_%d', 'CANAL_%d', 'N_%d', 'L_L_%d']) % (len(links) + 1)
         if ln in [l[0] for l in links]:
             ln = 'P%d' % (len(links) + 1)
         wn.add_pipe(ln, a, b, length=float(rng.randint(10, 500)), diameter=0.3)
